@@ -125,28 +125,75 @@ def cmd_import(out_dir, pid):
         json.dump(meta, open(os.path.join(dst, 'meta.json'), 'w'), indent=1)
 
 
+def patched_tree(patch, meta, tmp, pre_patches=()):
+    """<tmp>/repo/plotink = the entry's patch applied to /repo HEAD; if the patch no longer applies
+    there (a later `fix:` commit touched the same lines), to the commit the entry was written
+    against.  Returns (repo dir or None, base label, message)."""
+    bases = [('HEAD', None)]
+    old = (meta.get('verified_by_me') or {}).get('base_commit')
+    if old:
+        bases.append((old[:7], old))
+    msg = ''
+    for label, commit in bases:
+        repo = os.path.join(tmp, 'repo_' + label)
+        os.makedirs(repo)
+        p1 = subprocess.Popen(['git', '-C', REPO, 'archive', commit or 'HEAD', 'plotink'],
+                              stdout=subprocess.PIPE)
+        subprocess.run(['tar', '-x', '-C', repo], stdin=p1.stdout, check=True)
+        p1.wait()
+        ok = True
+        for pt in list(pre_patches) + [patch]:
+            rc, out = sh(['patch', '-p1', '-s', '-i', pt], cwd=repo)
+            if rc:
+                ok, msg = False, out[-200:]
+                break
+        if ok:
+            return repo, label, ''
+    return None, None, msg
+
+
+def inherited_reports(base_label):
+    """(rule, key) pairs of defects fixed in /repo after the commit a corpus entry is based on."""
+    if base_label == 'HEAD':
+        return set()
+    try:
+        data = json.load(open(os.path.join(VERIF, 'known_findings.json')))
+    except (OSError, ValueError):
+        return set()
+    return {(f['rule'], f['key']) for f in data.get('fixed_rules', [])}
+
+
+def reported(out):
+    """[(rule, key)] of the violation lines of a ./check run."""
+    got = []
+    for l in out.splitlines():
+        if ': [' in l and ']' in l:
+            rule = l.split(': [', 1)[1].split(']', 1)[0]
+            key = l.split('] ', 1)[1].split(': ', 1)[0] if '] ' in l else ''
+            got.append((rule, key))
+    return got
+
+
 def eval_one(name, tier='quick'):
     d = os.path.join(SEEDED, name)
     meta = json.load(open(os.path.join(d, 'meta.json')))
     pid = meta['property']
     tmp = tempfile.mkdtemp(prefix='vf_seedeval_')
     try:
-        repo = os.path.join(tmp, 'repo')
-        os.makedirs(repo)
-        shutil.copytree(os.path.join(REPO, 'plotink'), os.path.join(repo, 'plotink'),
-                        ignore=shutil.ignore_patterns('__pycache__'))
-        rc, out = sh(['git', 'apply', '--directory=' + os.path.relpath(repo, tmp),
-                      os.path.join(d, 'patch.diff')], cwd=tmp)
-        if rc:
-            rc, out = sh(['patch', '-p1', '-i', os.path.join(d, 'patch.diff')], cwd=repo)
-            if rc:
-                return name, pid, 'PATCH-FAILED', out[-200:]
+        repo, base, msg = patched_tree(os.path.join(d, 'patch.diff'), meta, tmp)
+        if repo is None:
+            return name, pid, 'PATCH-FAILED', msg
         rc, out = sh([os.path.join(VERIF, 'check'), pid, tier, '--repo', repo, '--out',
                       os.path.join(tmp, 'ev')], cwd=VERIF)
-        rules = sorted({l.split('[')[1].split(']')[0] for l in out.splitlines()
-                        if '[' in l and ']' in l and ': [' in l})
+        inherited = inherited_reports(base)
+        rules = sorted({r for r, k in reported(out) if (r, k) not in inherited})
+        if rc == 1 and not rules:
+            rc = 0      # only the defect inherited from the older base was reported
         verdict = {0: 'MISSED', 1: 'CAUGHT', 2: 'ANALYSIS-ERROR'}.get(rc, 'rc=%d' % rc)
-        return name, pid, verdict, ', '.join(rules) if rules else out.strip().splitlines()[-1][:160]
+        note = ', '.join(rules) if rules else out.strip().splitlines()[-1][:160]
+        if base != 'HEAD':
+            note += ' (on base %s)' % base
+        return name, pid, verdict, note
     finally:
         shutil.rmtree(tmp, ignore_errors=True)
 
